@@ -49,7 +49,7 @@ func ExpandEnv(s string) string {
 
 func expandEnvWithCmd(s string) (string, bool) {
 	var config bool
-	expanded := reSubcmd.ReplaceAllStringFunc(s, func(m string) string {
+	runSubcmd := func(m string) string {
 		subcmd := strings.TrimSpace(m[2 : len(m)-1])
 		args := parseSubcmd(subcmd)
 		cmd := args[0]
@@ -69,8 +69,18 @@ func expandEnvWithCmd(s string) (string, bool) {
 		}
 
 		return strings.Replace(strings.TrimSpace(string(out)), "\n", " ", -1)
-	})
-	return strings.TrimSpace(os.Expand(expanded, os.Getenv)), config
+	}
+	// Environment variables are expanded in the text around the subcommands only:
+	// the output of a subcommand is substituted as it is.
+	var expanded strings.Builder
+	last := 0
+	for _, loc := range reSubcmd.FindAllStringIndex(s, -1) {
+		expanded.WriteString(os.Expand(s[last:loc[0]], os.Getenv))
+		expanded.WriteString(runSubcmd(s[loc[0]:loc[1]]))
+		last = loc[1]
+	}
+	expanded.WriteString(os.Expand(s[last:], os.Getenv))
+	return strings.TrimSpace(expanded.String()), config
 }
 
 func parseSubcmd(s string) []string {
